@@ -1,8 +1,10 @@
-/- Line-protocol driver for the Buf component (stub; see tools/AGENT_GUIDE.md). -/
+/- Line-protocol driver for the Buf component (BUF / LIST verbs); handlers are in Driver/Buf.lean. -/
+import Driver.Buf
+
 partial def loop (h : IO.FS.Stream) (out : IO.FS.Stream) : IO Unit := do
   let line ← h.getLine
   if line.isEmpty then return ()
-  out.putStrLn "BADVERB"
+  out.putStrLn (Driver.BufDrv.dispatch line)
   loop h out
 
 def main : IO Unit := do
